@@ -186,7 +186,7 @@ func runDimCases(seed uint64, n int, outDir string, extra map[string]interface{}
 		case "dimfun": // inside a function the minifier knows: the unit of a zero stays
 			tok += units[rnd(len(units))]
 			pre, post = pick("min(", "max(", "var(", "calc("), ")"
-		case "dimunk": // an unknown function has hash 0, like no function at all
+		case "dimunk": // a function the minifier has no hash for: the unit of a zero stays as well (K92 repaired)
 			tok += units[rnd(len(units))]
 			pre, post = "f(", ")"
 		}
